@@ -1602,6 +1602,14 @@ class AstEval:
                 if isinstance(self.sym_table[arg.id], EvalLocalVar):
                     return self.sym_table[arg.id].get()
                 return self.sym_table[arg.id]
+            if (
+                self.curr_func_sym_table is not None
+                and self.sym_table is not self.curr_func_sym_table
+                and arg.id in self.curr_func_sym_table
+            ):
+                # a class body inside a function sees the variables of that function
+                val = self.curr_func_sym_table[arg.id]
+                return val.get() if isinstance(val, EvalLocalVar) else val
             if arg.id in self.local_sym_table:
                 return self.local_sym_table[arg.id]
             if arg.id in self.global_sym_table:
